@@ -26,7 +26,7 @@ def gen_script(rnd):
     threads = rnd.choice([1, 1, 2, 3, 4])
     buffer_time = rnd.choice([1000, 1000, 1, 10, 100, 5000, 10000])
     ponder_opt = rnd.choice(["false", "false", "true"])
-    maxnps = rnd.choice([0, 0, 0, 0, 20000, 100000])
+    maxnps = rnd.choice([0, 0, 0, 0, 0, 0, 20000, 20000, 100000, 100000, 1, 5, 20])     # small values: every stop test sleeps for a long time
     lines = ["now 0 | uci", "now 0 | setoption name Threads value %d" % threads, "now 0 | setoption name BufferTime value %d" % buffer_time,
              "now 0 | setoption name Ponder value %s" % ponder_opt]
     if maxnps:
@@ -46,7 +46,11 @@ def gen_script(rnd):
         if kind == "movetime":
             mt = logu(rnd, 1, 3000)
             sd["budget"] = mt
-            lines.append("now 0 | go movetime %d" % mt)
+            if rnd.random() < .3:
+                # a fixed move time given together with clocks: the move time is the budget
+                lines.append("now 0 | go movetime %d wtime %d btime %d winc %d binc %d" % (mt, logu(rnd, 1, 600000), logu(rnd, 1, 600000), rnd.choice([0, 1000]), rnd.choice([0, 1000])))
+            else:
+                lines.append("now 0 | go movetime %d" % mt)
         else:
             wt, bt = clockval(), clockval()
             inc = rnd.choice([0, 0, 10, 100, 1000, 100000])
@@ -193,7 +197,7 @@ def one(args):
 
 def run(c):
     quick = c.tier == "quick"
-    n = int((130 if quick else 6000) * c.scale)      # scripts of 2..5 timed searches each
+    n = int((130 if quick else 2600) * c.scale)      # scripts of 2..5 timed searches each
     B.build([("rel", "h_cos")])
     core.ensure_nets([NET])
     tot = dict(limits=0, searches=0, polls=0)
